@@ -1,6 +1,6 @@
 Require Import ExtrOcamlBasic.
-Require Import GV.Model.Units_io.
-Definition vp_run := units_run.
-Definition vp_check := c06_check.
-Definition vp_nontriv := units_nontriv.
+Require Import GV.Model.Units_io GV.Model.Auth_io GV.Model.C06_io.
+Definition vp_run := c06x_run.
+Definition vp_check := c06x_check.
+Definition vp_nontriv := c06x_nontriv.
 Extraction "model.ml" vp_run vp_check vp_nontriv.
